@@ -328,7 +328,15 @@ namespace hv
             }
             if (s.op == "tryout") { put(s.dst, wire<VTryOut>(w, pt<TryRes>(a.at(0)), uid)); return; }
             if (s.op == "tryerr") { wire<VTryErr>(w, pt<TryRes>(a.at(0)), uid); return; }
-            if (s.op == "err") { put(s.dst, exception_time_series(pi(a.at(0))), PT::Err); return; }
+            if (s.op == "err")
+            {
+                // err <port> [depth=<trace_back_depth>] [values=0|1]
+                ErrorCaptureOptions eo;
+                eo.trace_back_depth = static_cast<std::size_t>(s.kwi("depth", 1));
+                eo.capture_values   = s.kwi("values", 0) != 0;
+                put(s.dst, exception_time_series(pi(a.at(0)), eo), PT::Err);
+                return;
+            }
             if (s.op == "recerr") { wire<VRecErr>(w, pt<TS<NodeError>>(a.at(0)), uid); return; }
             if (exec_coll(*this, s)) return;
             throw std::runtime_error("interp: unknown op " + s.op);
@@ -385,6 +393,9 @@ namespace hv
         }
     }
 
+    inline bool       g_serialise_wiring = false;
+    inline std::mutex g_wiring_mutex;
+
     // Staged execution (C20): graphs main, main2, main3 run one after the other; the GlobalState of each stage's
     // root graph is carried into the next stage's builder (record in stage k, replay in stage k+1).
     inline void run_staged(Ctx &c, const std::string &name)
@@ -401,12 +412,24 @@ namespace hv
             std::string status = "ok";
             try
             {
-                GraphBuilder gb = build_graph<MainG>(Str{gname});
+                std::optional<GraphBuilder> gbo;
+                {
+                    std::unique_lock<std::mutex> wiring_lock(g_wiring_mutex, std::defer_lock);
+                    if (g_serialise_wiring) wiring_lock.lock();
+                    gbo.emplace(build_graph<MainG>(Str{gname}));
+                }
+                GraphBuilder gb = std::move(*gbo);
                 gb.global_state().copy_from(carried.view());
                 Obs obs;
                 GraphExecutorBuilder eb;
                 eb.graph_builder(std::move(gb)).start_time(tabs(c.win_start)).end_time(tabs(c.win_end)).add_lifecycle_observer(&obs);
-                GraphExecutorValue ex = eb.make_executor();
+                std::optional<GraphExecutorValue> exo;
+                {
+                    std::unique_lock<std::mutex> wiring_lock(g_wiring_mutex, std::defer_lock);
+                    if (g_serialise_wiring) wiring_lock.lock();
+                    exo.emplace(eb.make_executor());
+                }
+                GraphExecutorValue &ex = *exo;
                 ex.view().run();
                 auto gs = ex.view().graph().global_state();
                 for (const auto &key : split(c.opt_str("gsdump", ""), ','))
@@ -429,9 +452,6 @@ namespace hv
         }
         Line("ENDCASE").s(name).s("done");
     }
-
-    inline bool       g_serialise_wiring = false;
-    inline std::mutex g_wiring_mutex;
 
     inline void run_case(Ctx &c, const std::string &name)
     {
@@ -476,7 +496,12 @@ namespace hv
                 std::optional<GraphExecutorValue> ex;
                 try
                 {
-                    ex.emplace(eb.make_executor());
+                    {
+                        // executor construction compiles graph types into process-wide registries: part of "building"
+                        std::unique_lock<std::mutex> wiring_lock(g_wiring_mutex, std::defer_lock);
+                        if (g_serialise_wiring) wiring_lock.lock();
+                        ex.emplace(eb.make_executor());
+                    }
                     ex->view().run();
                 }
                 catch (const std::exception &e)
